@@ -1345,6 +1345,20 @@ def gen_C16(rng, tier):
             pr.emit("E.IsNegative", dst)
         pr.tag("sqrt ratio: zero / square / non-square, aliased receivers")
         cases.append(pr)
+    # structured numerators (sparse limb vectors, e.g. 2^32 + 1) against zero denominators in every representation, and against 1:
+    # with v = 0 the check value is 0, so wasSquare rests on a single field comparison with u
+    pr = Prog(rng)
+    vals = sparse_limb_values(rng)
+    if tier != "thorough":
+        vals = rng.sample(vals, 24) + [2**32 + 1, (2**32 + 1) << 51, 0x7ffff * (2**32 + 1)]
+    zeros = [pr.elem(0), pr.elem(limbs=P_LIMBS), pr.elem(limbs=TWO_P_LIMBS), pr.elem(1)]
+    for u in vals:
+        un = pr.elem(u)
+        for vn in zeros:
+            r = pr.elem(None)
+            pr.emit("E.SqrtRatio", r, un, vn)
+    pr.tag("sqrt ratio: sparse numerators over zero denominators")
+    cases.append(pr)
     return cases
 
 
